@@ -65,11 +65,13 @@ def run(chk):
     from props import _state
     _state.run_state(chk)
     _state.run_length_wrap(chk)
+    from props import C16 as _c16
+    _c16.run_rejected_adds(chk, 150 if chk.tier == "quick" else 4000)   # rejected Model::add calls leave nothing behind
     from props import C09 as _c09
     _c09.run_batch_rules(chk, extra_random=2500 if chk.tier == "quick" else 40000)   # values near 2^32 must raise, not wrap
     for f in _compose.load(["_funcs"], chk):
         if hasattr(f, "run_malformed"):
             f.run_malformed(chk)
     _compose.finish(chk)
-    chk.trusted += ["the registry, tensor, codec and C-API rejection paths are decided by C16, C07, C14 and C20 respectively; this check covers Shape/Device/functions/Graph entry points and allocation-failure atomicity of forward evaluation",
+    chk.trusted += ["the tensor, codec and C-API rejection paths are decided by C07, C14 and C20 respectively (the registry's by C16; here its rejected adds are replayed on the implementation against the dictionary specification of props/C16.py, without the Lean model); this check covers Shape/Device/functions/Graph entry points and allocation-failure atomicity of forward evaluation",
                     "allocation failure is injected twice: at operator granularity in the graph family (model-checked against the Lean model), and at the k-th device allocation for every k inside real function programs (h_grad alloc mode, implementation-side oracle)"]
